@@ -133,6 +133,9 @@ type c27Config struct {
 	Routes  []int  `json:"routes"`  // per partition (topic-major): 0 unknown, 1 owner A, 2 owner B, 3 owner with a dead address
 	RR      uint32 `json:"rr"`      // initial round-robin counter of the proxy
 	Unknown bool   `json:"unknown"` // fetch by id: the proxy cannot resolve the topic ids to names
+	// NoRouter: the proxy runs without a partition router (static backends / router init failed):
+	// every partition is "owner unknown" and NOT_LEADER invalidates nothing.
+	NoRouter bool `json:"no_router,omitempty"`
 	// Mask (sessions only): when non-zero the request names only the partitions whose topic-major
 	// index bit is set; Topics x Parts / Routes then describe the world shared by the session.
 	Mask int `json:"mask,omitempty"`
@@ -614,7 +617,6 @@ func (k *c27Worker) newProxy(cfg c27Config) (*proxy, *metadata.PartitionRouter, 
 		rr:             cfg.RR,
 		dialTimeout:    5 * time.Second,
 		cacheTTL:       time.Minute,
-		router:         router,
 		brokerAddrs:    map[string]string{"1": k.w.addr[0], "2": k.w.addr[1], "3": c27DeadAddr},
 		topicNames:     map[[16]byte]string{},
 		backendRetries: 1,
@@ -624,6 +626,9 @@ func (k *c27Worker) newProxy(cfg c27Config) (*proxy, *metadata.PartitionRouter, 
 		for t := 0; t < cfg.Topics; t++ {
 			p.topicNames[c27TopicID(t)] = c27TopicName(t)
 		}
+	}
+	if !cfg.NoRouter {
+		p.router = router // (assigning a nil *PartitionRouter would make a non-nil interface/pointer check pass)
 	}
 	p.setReady(true)
 	return p, router, nil
@@ -952,7 +957,7 @@ type c27Choice struct {
 
 func c27Signature(cfg c27Config, o c27Outcome) (string, bool) {
 	var sb strings.Builder
-	fmt.Fprintf(&sb, "%s|%dx%d|%v|rr%d|u%v", cfg.Kind, cfg.Topics, cfg.Parts, cfg.Routes, cfg.RR, cfg.Unknown)
+	fmt.Fprintf(&sb, "%s|%dx%d|%v|rr%d|u%v|nr%v", cfg.Kind, cfg.Topics, cfg.Parts, cfg.Routes, cfg.RR, cfg.Unknown, cfg.NoRouter)
 	nontrivial := false
 	// arrivals of one attempt are concurrent: order by slot within the log for a stable signature
 	as := append([]*c27Arrival(nil), o.Arrivals...)
@@ -1035,6 +1040,11 @@ func c27Configs(thorough bool) []c27Config {
 					c := kc
 					c.Topics, c.Parts, c.Routes, c.RR = sh[0], sh[1], routes, rr
 					out = append(out, c)
+					if allUnknown {
+						// the same request through a proxy that has no router at all
+						c.NoRouter = true
+						out = append(out, c)
+					}
 				}
 			}
 		}
@@ -1110,7 +1120,7 @@ func c27ExploreScripts(maxFaults int, deadline time.Time, opts func(a *c27Arriva
 func TestVerifC27(t *testing.T) {
 	rep := vh.New(t, "C27")
 	defer rep.Finish()
-	rep.Rule = "case = request kind (produce v9 acks=1, produce v7 acks=-1, fetch by name v11, fetch by topic id v13 resolvable / unresolvable) x shape (1-2 topics x 1-2 partitions) x routing table entry per partition (unknown | owner A | owner B) x initial round-robin phase x behaviour of each backend on each request it receives (ok | NOT_LEADER for every non-empty subset of the partitions in that request | other error code | close before reading | close after reading | undecodable reply | well-formed reply without partitions), all scripts with <= F non-ok behaviours by depth-first search over the requests actually received; run on the real proxy struct against 2 loopback TCP backends. distinct = configuration + per-backend request log + reply codes; non-trivial = >=1 non-ok behaviour was consumed. SESSIONS: in addition every sequence of 2 (thorough also 3) requests (produce v9 acks=1 | fetch v11, each naming a non-empty subset of the partitions of a 1 topic x 2 partition world) sent one after the other on ONE client connection through the real proxy.handleConnection (one connPool: later requests reuse the backend connections of earlier ones) x routing table x round-robin phase x all scripts with <= F non-ok behaviours over the slots consumed during the whole session, behaviours as above plus 'answer ok, then close the now pooled connection'; every request of the session is judged by the same oracle over the backend arrivals that happened while it was in flight (produce record bytes name their request)."
+	rep.Rule = "case = request kind (produce v9 acks=1, produce v7 acks=-1, fetch by name v11, fetch by topic id v13 resolvable / unresolvable) x shape (1-2 topics x 1-2 partitions) x routing table entry per partition (unknown | owner A | owner B; the all-unknown table also with a proxy that has no router at all) x initial round-robin phase x behaviour of each backend on each request it receives (ok | NOT_LEADER for every non-empty subset of the partitions in that request | other error code | close before reading | close after reading | undecodable reply | well-formed reply without partitions), all scripts with <= F non-ok behaviours by depth-first search over the requests actually received; run on the real proxy struct against 2 loopback TCP backends. distinct = configuration + per-backend request log + reply codes; non-trivial = >=1 non-ok behaviour was consumed. SESSIONS: in addition every sequence of 2 (thorough also 3) requests (produce v9 acks=1 | fetch v11, each naming a non-empty subset of the partitions of a 1 topic x 2 partition world) sent one after the other on ONE client connection through the real proxy.handleConnection (one connPool: later requests reuse the backend connections of earlier ones) x routing table x round-robin phase x all scripts with <= F non-ok behaviours over the slots consumed during the whole session, behaviours as above plus 'answer ok, then close the now pooled connection'; every request of the session is judged by the same oracle over the backend arrivals that happened while it was in flight (produce record bytes name their request)."
 	rep.Assumptions = []string{
 		"a backend that closes before reading the request body has not processed (appended) it; one that read the body has",
 		"the routing table is a real metadata.PartitionRouter loaded from a fake etcd KV whose watch never fires: it only changes through the proxy's own Invalidate",
